@@ -388,7 +388,7 @@ func TestC13HandshakeStreams(t *testing.T) {
 			ev.Sample("handshake-stream", c)
 		}
 		if v != "" {
-			t.Fatalf("C13 violated: %s\nstream(%d bytes)=%x", v, len(stream), trunc(stream, 3000))
+			t.Fatalf("C13 violated: %s\nstream(%d bytes)=%x", v, len(stream), trunc(stream, 600))
 		}
 	})
 }
